@@ -5786,11 +5786,10 @@ func (c *linkerContext) generateChunkJS(chunkIndex int, chunkWaitGroup *sync.Wai
 				if fileRepr := c.graph.Files[chunk.sourceIndex].InputFile.Repr.(*graph.JSRepr); fileRepr.Meta.Wrap == graph.WrapCJS {
 					aliases = []string{"default"}
 				} else {
-					resolvedExports := fileRepr.Meta.ResolvedExports
-					aliases = make([]string, 0, len(resolvedExports))
-					for alias := range resolvedExports {
-						aliases = append(aliases, alias)
-					}
+					// Note: This must use the same list of exports that code generation
+					// uses. It omits exports that aren't emitted, such as ambiguous
+					// re-exports due to "export *" and re-exports of TypeScript types.
+					aliases = append(aliases, fileRepr.Meta.SortedAndFilteredExportAliases...)
 				}
 			} else {
 				aliases = make([]string, 0, len(chunkRepr.exportsToOtherChunks))
